@@ -670,6 +670,9 @@ MUTANTS = [
         };
 
         state.current.resources.insert(name.to_string(), index);"""),
+    dict(id="c09-revert-d20-interface-id-rename", prop="C09", expect="R09.3|rename-interface-id", file="crates/wac-types/src/aggregator.rs",
+         old="""                        self.types[id].id = Some(name.to_string());""",
+         new="""                        let _ = id;"""),
     dict(id="c12-lexical-comment-needs-newline", prop="C12", expect="R12.10|pattern|Token::Comment", file="crates/wac-parser/src/lexer.rs",
          old="""    #[regex(r"//[^\\n]*", logos::skip)]""", new="""    #[regex(r"//[^\\n]*\\n", logos::skip)]"""),
     dict(id="c12-lexical-ident-digit-start", prop="C12", expect="R12.10|pattern|Token::Ident", file="crates/wac-parser/src/lexer.rs",
